@@ -61,4 +61,9 @@ theorem wf_removeOp {s : Sys} (h : WF s) (id : OpId) : WF (removeOp s id) := by
   simp only
   exact (List.filter_sublist.map _).nodup h
 
+/-- every command of the model that can delete its key is classified as blocking
+(`requires_blocking_migration`, generated table): it takes the UMSYNC push path -/
+theorem deletes_blocking (c : Cmd) : c.deletes = true → c.blocking = true := by
+  cases c <;> simp [Cmd.deletes] <;> decide +kernel
+
 end Um.Mig
